@@ -30,6 +30,7 @@ BOUNDS = {
     "quick": "n<=4; lambda1 in {2,-2}; |lambda2/lambda1| in {0,0.5,0.8}; seeds 0..7; 4 enumerated generic starts; all signed Q8 basis starts (boundedness clauses only); budgets {1,5,50,500}; tol {1e-6,1e-10,1e-12}",
     "thorough": "seeds 0..63, 16 generic starts",
 }
+THOROUGH_STREAMS = 8
 WALL_BUDGET = {"quick": 600, "thorough": 3400}
 ASSUMPTIONS = [
     "'enough iterations' = 500; accuracy demanded: residual <= |lambda1| max(1e-5, 30 sqrt(1e-3 tol), 30 tol/(1-rho))",
